@@ -109,8 +109,37 @@ def run_case(case):
             spec['with'] = rng.choice(['c', 5, 2.5, True])
         label = 'add_computed_field/%s/%s' % (op_, ftyp)
         fields = [{'name': 'id', 'type': 'integer'}] + [{'name': f, 'type': t} for f, t in fl]
-        mk = lambda e: [lab.source('t', fields, rows), d.add_computed_field([copy.deepcopy(spec)])]   # noqa
-        prog = {'table': fl, 'step': spec}
+        variant = rng.choice(['single', 'single', 'two_resources', 'chained'])
+        if variant == 'two_resources' and op_ in ('sum', 'avg', 'max', 'min', 'multiply'):
+            # one step over two resources whose source columns have DIFFERENT types: the new field must be typed
+            # per resource
+            fl2 = [('x', 'number'), ('y', 'number')] if ftyp == 'integer' else [('x', 'integer'), ('y', 'integer')]
+            rows2 = typed_table(rng, fl2, 4)
+            for r in rows2:
+                for k in ('x', 'y'):
+                    if isinstance(r[k], float):
+                        r[k] = D(str(r[k]))
+                    if r[k] is None:
+                        r[k] = D('2.5') if fl2[0][1] == 'number' else 3
+            fields2 = [{'name': 'id', 'type': 'integer'}] + [{'name': f, 'type': t} for f, t in fl2]
+            order = rng.random() < 0.5
+            mk = lambda e: ([lab.source('t', fields, rows), lab.source('u', fields2, rows2)] if order else   # noqa
+                            [lab.source('u', fields2, rows2), lab.source('t', fields, rows)]) + \
+                [d.add_computed_field([copy.deepcopy(spec)])]
+            label += '/two_resources'
+        elif variant == 'chained' and op_ in ('sum', 'max', 'min', 'multiply') and ftyp == 'integer':
+            # a second computed field of the SAME call uses the first one as a source
+            first = {'target': 'half', 'operation': 'avg', 'source': ['x', 'y']}
+            for r in rows:
+                if r['x'] is None and r['y'] is None:
+                    r['x'] = 1
+            second = {'target': 'out', 'operation': op_, 'source': ['half', 'x']}
+            mk = lambda e: [lab.source('t', fields, rows), d.add_computed_field([copy.deepcopy(first), copy.deepcopy(second)])]  # noqa
+            spec = [first, second]
+            label += '/chained'
+        else:
+            mk = lambda e: [lab.source('t', fields, rows), d.add_computed_field([copy.deepcopy(spec)])]   # noqa
+        prog = {'table': fl, 'step': spec, 'variant': variant}
     elif fam == 'matrix_join':
         agg = rng.choice(['sum', 'avg', 'median', 'min', 'max', 'first', 'last', 'count', 'counters', 'set',
                           'array', 'any'])
